@@ -96,7 +96,8 @@ def write_cmake(config: kconfiglib.Kconfig, filename: str, write_deprecated: boo
                     val = ""
                 elif sym.orig_type == kconfiglib.STRING:
                     val = kconfiglib._escape(val)
-                elif sym.orig_type == kconfiglib.HEX:
+                elif sym.orig_type == kconfiglib.HEX and val:
+                    # (a hex symbol that nothing provides a value for is written empty, as in sdkconfig)
                     val = hex(int(val, 16))
                 f.write(f'set({prefix}{sym.name} "{val}")\n')
 
